@@ -23,10 +23,33 @@ def hx(b: bytes) -> str:
     return b.hex()
 
 
-def run_driver(lines, timeout=3600):
-    """Feed request lines to the compiled Lean driver, return answer lines (same length)."""
+_TABLE_PREFIX = None
+
+
+def table_prefix():
+    """`table-clear` + one `table-add` per live command class (from the translator's last run)."""
+    global _TABLE_PREFIX
+    if _TABLE_PREFIX is None:
+        try:
+            with open(os.path.join(VERIF, ".cache", "generated.json")) as f:
+                gj = json.load(f)
+            _TABLE_PREFIX = ["table-clear"] + ["table-add " + w for w in gj["table_wire"]]
+        except Exception:  # noqa
+            _TABLE_PREFIX = []
+    return _TABLE_PREFIX
+
+
+def run_driver(lines, timeout=3600, live_table=True):
+    """Feed request lines to the compiled Lean driver, return answer lines (same length).
+    With live_table the driver first receives the command table extracted from /repo."""
     if not lines:
         return []
+    if live_table and table_prefix():
+        pre = table_prefix()
+        out = run_driver(pre + list(lines), timeout, live_table=False)
+        if any(a != "ok" for a in out[:len(pre)]):
+            raise RuntimeError("driver refused the live table: %r" % out[:len(pre)])
+        return out[len(pre):]
     fd, path = tempfile.mkstemp(dir=WORK, suffix=".req")
     try:
         with os.fdopen(fd, "w") as f:
